@@ -216,6 +216,12 @@ TOther ==
                 [] OTHER -> Tick
   /\ UNCHANGED <<cfg, submitted, subInfo, outcome, okAt, chosen, log, wire, icount, phase, viol>>
 
+TPanic ==
+  /\ E.ev = "panic"
+  /\ viol' = viol \cup V("no_panic")
+  /\ stats' = Tick
+  /\ UNCHANGED <<cfg, submitted, subInfo, outcome, okAt, chosen, log, wire, icount, phase>>
+
 TEnd ==
   /\ E.ev = "end"
   /\ PrintT(<<"VIOL", ToJson(viol)>>)
@@ -224,7 +230,7 @@ TEnd ==
 
 Next == /\ l <= Len(Trace)
         /\ l' = l + 1
-        /\ (TReset \/ TSubmit \/ TChose \/ TSuccess \/ TError \/ TAppend \/ TRecv \/ TIntercept \/ TPhase \/ TFin \/ TOther \/ TEnd)
+        /\ (TReset \/ TSubmit \/ TChose \/ TSuccess \/ TError \/ TAppend \/ TRecv \/ TIntercept \/ TPhase \/ TFin \/ TOther \/ TPanic \/ TEnd)
 Spec == Init /\ [][Next]_vars
 Accepted == TLCGet("stats").diameter - 1 = Len(Trace)
 =============================================================================
